@@ -181,11 +181,12 @@ def _cof(F):
     return C
 
 
-def case_mass(ctx, family):
+def case_mass(ctx, family, kind="Field"):
     with ctx.concrete():
         m = tiny_mesh(family)
         region = REGION[family](m)
-    field = fem.FieldContainer([fem.Field(region, dim=m.dim)])
+    Fld = {"Field": fem.Field, "PlaneStrain": fem.FieldPlaneStrain, "Axisymmetric": fem.FieldAxisymmetric}[kind]
+    field = fem.FieldContainer([Fld(region, dim=m.dim)])
     rho = ctx.var("rho", 0.1, 5)
     body = fem.SolidBody(fem.LinearElastic(E=1, nu=0.3), field, density=rho)
     M = dense(ctx, body.assemble.mass())
@@ -195,6 +196,9 @@ def case_mass(ctx, family):
     ctx.equal("mass_symmetric", M, M.T, tol=1e-12)
     h = np.asarray(region.h)
     dV = np.asarray(region.dV)
+    if kind == "Axisymmetric":
+        # revolved volume: dV = 2 pi R dA with the radius at the quadrature points
+        dV = dV * (2 * np.pi) * np.asarray(field[0].radius, dtype=float)
     cells = m.cells
     exp = np.zeros((n, n), dtype=object)
     for c in range(cells.shape[0]):
@@ -206,7 +210,7 @@ def case_mass(ctx, family):
                 for i in range(d):
                     exp[d * cells[c, a] + i, d * cells[c, b] + i] = exp[d * cells[c, a] + i, d * cells[c, b] + i] + rho * t
     ctx.equal("mass_is_rho_h_h_dV", M, exp, tol=1e-12)
-    V = float(region.dV.sum())
+    V = float(np.asarray(dV, dtype=float).sum())
     for i in range(d):
         e = np.zeros(n, dtype=int)
         e[i::d] = 1
@@ -273,6 +277,8 @@ def cases(tier):
     out.append(("pressure", case_pressure, {"family": "hex8"}))
     for fam in ("quad4x2", "tri3") + (("hex8", "tet4") if thorough else ()):
         out.append(("mass", case_mass, {"family": fam}))
+    out.append(("mass", case_mass, {"family": "quad4x2", "kind": "PlaneStrain"}))
+    out.append(("mass", case_mass, {"family": "quad4axi", "kind": "Axisymmetric"}))
     for ao in (0, 1, 2):
         for axi in (False, True):
             out.append(("point_load", case_point_load, {"apply_on": ao, "axisymmetric": axi}))
